@@ -278,7 +278,7 @@ impl Family for C01Family {
             }
         }
         let udp = (0..n_udp)
-            .map(|_| UdpClient { via_socks: r.chance(1, 2), target: r.below(n_udp_targets), start_ms: r.below(200) as u64, sizes: (0..(1 + r.below(4))).map(|_| *r.pick(&[0usize, 1, 2, 3, 4, 13, 100, 1400, 9000])).collect(), gap_ms: if r.chance(1, 6) { *r.pick(&[10_500u64, 15_000, 19_500, 25_000]) } else { *r.pick(&[0u64, 10, 300, 900]) }, hops: (0..4).map(|_| r.below(2)).collect(), junk: (0..4).map(|_| if r.chance(1, 4) { 1 + r.below(4) as u8 } else { 0 }).collect(), v6: { let mixed = r.chance(1, 4); (0..4).map(|_| mixed && r.chance(1, 2)).collect() }, alt_local: false, burst: 0, stream_n: if r.chance(1, 8) { 2 + r.below(5) } else { 0 } })
+            .map(|_| UdpClient { via_socks: r.chance(1, 2), target: r.below(n_udp_targets), start_ms: r.below(200) as u64, sizes: (0..(1 + r.below(4))).map(|_| *r.pick(&[0usize, 1, 2, 3, 4, 13, 100, 1400, 9000])).collect(), gap_ms: if r.chance(1, 6) { *r.pick(&[10_500u64, 15_000, 19_500, 25_000]) } else { *r.pick(&[0u64, 10, 300, 900]) }, hops: (0..4).map(|_| r.below(2)).collect(), junk: (0..4).map(|_| if r.chance(1, 4) { 1 + r.below(4) as u8 } else { 0 }).collect(), v6: { let mixed = r.chance(1, 4); (0..4).map(|_| mixed && r.chance(1, 2)).collect() }, alt_local: false, burst: 0, stream_n: if r.chance(1, 8) { 2 + r.below(5) } else { 0 }, pairs: r.chance(1, 3) })
             .collect();
         // a quarter of the runs with UDP remotes bind them to the wildcard address (no local host in
         // the remote specification); some clients then come in through the secondary local address
@@ -289,7 +289,7 @@ impl Family for C01Family {
         // reply three seconds later
         if n_udp > 0 && !faulty_udp && r.chance(1, 10) {
             let n = 1 + r.below(2);
-            udp = (0..n).map(|_| UdpClient { via_socks: false, target: r.below(n_udp_targets), start_ms: 100, sizes: vec![4; 1 + r.below(2)], gap_ms: 0, hops: vec![], junk: vec![], v6: vec![], alt_local: false, burst: 70 + r.below(130), stream_n: 0 }).collect();
+            udp = (0..n).map(|_| UdpClient { via_socks: false, target: r.below(n_udp_targets), start_ms: 100, sizes: vec![4; 1 + r.below(2)], gap_ms: 0, hops: vec![], junk: vec![], v6: vec![], alt_local: false, burst: 70 + r.below(130), stream_n: 0, pairs: false }).collect();
             net.buf_cap = net.buf_cap.max(65_536);
         }
         if udp_wildcard {
